@@ -33,6 +33,12 @@ pub trait Scenario: Sync {
     /// number of lazy actions available now
     fn lazy_count(&self, st: &Self::State, w: &World) -> usize;
     fn lazy_apply(&self, st: &mut Self::State, w: &mut World, k: usize);
+    /// called when a lazy action wants virtual time to pass right after it (e.g. an explicit "wait" step)
+    fn lazy_wait(&self, _st: &Self::State) -> Option<Duration> {
+        None
+    }
+    /// called after every clock tick (idle tick or explicit wait)
+    fn on_tick(&self, _st: &mut Self::State, _by: Duration) {}
     /// (number of clock ticks available when idle, tick length); ticks are only taken when nothing else is enabled
     /// unless `time_deviation()` is true
     fn time(&self) -> (u32, Duration) {
@@ -118,13 +124,22 @@ fn run_one_here<S: Scenario>(scn: &S, schedule: &[(usize, usize)], seed: u64) ->
                     }
                 }
                 ex.widths.push(n_choices.min(u16::MAX as usize) as u16);
+                if std::env::var_os("VERIF_TRACE").is_some() {
+                    let names: Vec<&str> = en.iter().map(|i| w.driver.name(*i)).collect();
+                    eprintln!("[trace] step {step}: enabled {names:?} lazy {lazy} time {time_choice} pick {pick}");
+                }
                 if pick < en.len() {
                     w.driver.step(en[pick]);
                 } else if pick < en.len() + lazy {
                     scn.lazy_apply(&mut st, &mut w, pick - en.len());
+                    if let Some(d) = scn.lazy_wait(&st) {
+                        tokio::time::advance(d).await;
+                        scn.on_tick(&mut st, d);
+                    }
                 } else {
                     tokio::time::advance(tick).await;
                     ex.ticks_used += 1;
+                    scn.on_tick(&mut st, tick);
                 }
                 for v in scn.monitor(&mut st, &w) {
                     ex.viols.push((v.signature, v.what));
